@@ -77,7 +77,7 @@ Supported subset
               parameter defaults are re-evaluated at the call, refused if their variables are assigned after the
               def), re.match(<pattern of fragments>, s) and m.groupdict() (pyo_groupdict), m is None;
               statements: `while c: body` (a local fixpoint on a fuel the spec declares per loop; out of fuel =
-              None), `break` in a for loop (sum-valued fold: left = the loop was left), `if x is None: A else: B`
+              None; a test that may raise leaves the loop and the function with None), `break` in a for loop (sum-valued fold: left = the loop was left), `if x is None: A else: B`
               on an optional (a match; in B the name is the value), `if <test>: <only logging>` (skipped like
               logging), `file_object.write(e)` for the spec's sink (the text written so far grows by e),
               `try: BODY except <TypeError|IndexError|KeyError|ValueError>: HANDLER` (every operation of BODY that
@@ -1996,13 +1996,17 @@ class Tr:
         finally:
             self.in_try -= 1
             self.pmode.pop()
-        if t.partial:
-            self.err(s, "the loop test may raise")
         env3 = dict(env)
         for nm in touched:
             if nm not in state:
                 env3[nm] = None
         self.need_partial(s)
+        if t.partial:
+            # the test may raise: that leaves the loop and the function (None), like running out of fuel
+            return ("obind ((fix loop_ (fuel_ : nat) (st_ : %s) {struct fuel_} : option (%s) :=\n"
+                    "  match fuel_ with\n  | O => None\n  | S fuel_ =>\n    let %s := st_ in\n    match %s with\n    | Some true =>\n%s\n"
+                    "    | Some false => Some st_\n    | None => None\n    end\n  end) (%s) %s) (fun %s =>\n%s)") % (
+                sty, sty, pat, t.code, indent(body, 6), fuel, tup, pat, go(env3))
         return ("obind ((fix loop_ (fuel_ : nat) (st_ : %s) {struct fuel_} : option (%s) :=\n"
                 "  match fuel_ with\n  | O => None\n  | S fuel_ =>\n    let %s := st_ in\n    if %s then\n%s\n    else Some st_\n  end) (%s) %s) (fun %s =>\n%s)") % (
             sty, sty, pat, t.code, indent(body, 6), fuel, tup, pat, go(env3))
@@ -3186,7 +3190,9 @@ SPECS = [
     dict(py="determine_section_type", file="reader.py", cls=None, coq="py_determine_section_type",
          params=[("section_title", STR)], ret=STR),
     dict(py="strip_brackets", file="reader.py", cls="SectionParser", coq="py_strip_brackets",
-         params=[("self", None), ("x", STR)], ret=STR, rec_fuel="S (List.length v_x)"),
+         params=[("self", None), ("x", STR)], ret=STR, rec_fuel="S (List.length v_x)",
+         # (the recursive form of lasio b7a2e2d and the iterative form that replaces it: each round drops two characters)
+         while_fuel={"len(x) >= 2 and (x[0] == '[' and x[-1] == ']' or (x[0] == '(' and x[-1] == ')'))": "S (List.length v_x)"}),
     dict(py="useful_mnemonic", file="las_items.py", cls="HeaderItem", decorator="property", coq="py_useful_mnemonic",
          params=[("self", None)], self_attrs={"original_mnemonic": STR}, ret=STR),
     dict(py="mnemonic_compare", file="las_items.py", cls="SectionItems", coq="py_mnemonic_compare",
